@@ -5,6 +5,7 @@ transaction-id counter (0..65535, so the wrap at 0xFFFF is inside the domain) is
 (symbolic distinct values) arrive in permutation k, with an unsolicited reply (symbolic foreign transaction id) and a
 duplicate of an already-answered reply injected. Asserted: the three transaction ids on the wire are distinct; each
 deferred fires exactly once, with the reply carrying its own id; the unsolicited and the duplicate reply change nothing.
+pipe.tcp.onechunk.perm<k>: the same five frames delivered in ONE dataReceived call.
 lost.tcp.at<j>: connection lost after j replies: every still-pending deferred fails with ConnectionException, fired
 ones are not touched again, a request issued afterwards fails likewise.
 step.tcp: one inductive step from an ARBITRARY pending set (two pending deferreds with symbolic ids, symbolic
@@ -21,7 +22,7 @@ EXPLANATION = ("Bounded symbolic model checking of the Twisted ModbusClientProto
                "_handleResponse, connectionLost) with DictTransactionManager / FifoTransactionManager, from symbolic transaction-id "
                "counters and symbolic pending sets, for every arrival order of up to three replies.")
 ASSUMPTIONS = ["three outstanding requests (all 6 arrival orders); pending maps are hash-free mappings under the solver so that ids stay symbolic",
-               "the Twisted transport is a recording fake; each reply arrives as one dataReceived call (chunking is C06's subject)",
+               "the Twisted transport is a recording fake; each reply arrives as one dataReceived call, or (pipe.tcp.onechunk.*) all five frames in one call; cuts inside a frame are C06's subject",
                "step.tcp: the pre-state (a pending id equal to counter+1) is reachable after 65535 further requests while one stays unanswered - there is no timeout in this client"]
 
 
@@ -55,7 +56,7 @@ def _reply(tid, unit, v):
     return adu.ref_adu("tcp", bytes([3, 2, v[0], v[1]]), unit, bytes([tid // 256, tid % 256]))
 
 
-def make_pipe(perm):
+def make_pipe(perm, onechunk=False):
     def pipe(t0: bytes, x: bytes, v: bytes) -> bool:
         import pymodbus.factory as F
         assume(len(t0) == 2 and len(x) == 2 and len(v) == 8)
@@ -81,13 +82,24 @@ def make_pipe(perm):
         assume(foreign != tids[0])
         assume(foreign != tids[1])
         assume(foreign != tids[2])
-        # unsolicited reply first
-        p.dataReceived(_reply(foreign, 1, v[6:8]))
+        if onechunk:
+            # everything in ONE dataReceived call: unsolicited reply, first reply, its duplicate, the other two replies
+            chunk = _reply(foreign, 1, v[6:8])
+            for n, i in enumerate(perm):
+                chunk = chunk + _reply(tids[i], 1, v[2 * i:2 * i + 2])
+                if n == 0:
+                    chunk = chunk + _reply(tids[i], 1, v[6:8])
+            p.dataReceived(chunk)
+            perm_rest = ()
+        else:
+            perm_rest = perm
+            # unsolicited reply first
+            p.dataReceived(_reply(foreign, 1, v[6:8]))
         for r in recs:
-            if r.ok or r.err:
+            if (r.ok or r.err) and not onechunk:
                 explain("an unsolicited reply fired a deferred")
                 return False
-        for n, i in enumerate(perm):
+        for n, i in enumerate(perm_rest):
             p.dataReceived(_reply(tids[i], 1, v[2 * i:2 * i + 2]))
             if n == 0:
                 # duplicate of the reply just delivered
@@ -269,6 +281,9 @@ def obligations(tier):
             continue
         out.append(Obl("pipe.tcp.perm%s" % "".join(map(str, perm)), make_pipe(perm), timeout=T,
                        bounds="tid counter 0..65535 symbolic, three requests, replies in order %s with symbolic values; unsolicited reply with symbolic foreign tid; duplicate reply" % (perm,)))
+    for perm in ((2, 0, 1),) if tier == "quick" else perms:
+        out.append(Obl("pipe.tcp.onechunk.perm%s" % "".join(map(str, perm)), make_pipe(perm, onechunk=True), timeout=T,
+                       bounds="as pipe.tcp.perm*, but the unsolicited reply, the first reply, its duplicate and the other two replies (order %s) arrive in ONE dataReceived call" % (perm,)))
     for j in (0, 1, 2, 3):
         if tier == "quick" and j in (2,):
             continue
